@@ -13,7 +13,7 @@ RULE = ('per configuration (handler- or swapper-backed grid, shape, process grid
         '{setLayout(x) for every layout, write(pattern 0/1), saveGridValues, restoreGridValues, freeGridSave}; every transition '
         're-builds the world and the Grid, replays the history plus one operation on all ranks and compares getAllData()/currentLayout '
         'with a one-array reference model (+ optional saved (array, layout)); refused operations must raise AssertionError on every '
-        'rank and leave the state unchanged; canonical key = (layout, notSaved, saved (pattern, layout), buffer-index permutation, live '
+        'rank and leave the state unchanged; canonical key = (layout, notSaved, saved (pattern, layout) according to the model AND as actually held in the save buffer, buffer-index permutation, live '
         'pattern, swapper manager) per rank; dead buffer regions are NaN-poisoned before every operation so merged states have equal '
         'futures; search runs to closure (no new key), which covers histories of any length; non-trivial = transition that moves data '
         'between ranks or touches the save')
@@ -171,7 +171,13 @@ def run_case(case):
                         viol.append('shape-after:' + op[0])
                     elif ident(f, g, model['lay']) != model['data']:
                         viol.append('data-after:' + op[0])
-            key = (g.currentLayout, getattr(g, 'notSaved', None), model['saved'], g._dataIdx, g._buffIdx, g._saveIdx, model['data'],
+            # what the save buffer REALLY holds (not what the model believes): a state reached through a refused operation that
+            # touched the save is then a different state, and its futures (restore) are explored
+            held = None
+            if g.hasSaveMemory and not g.notSaved:
+                sl_ = g.getLayout(g._savedLayout)
+                held = (g._savedLayout, ident(np.asarray(g._my_data[g._saveIdx][:sl_.size]).reshape(sl_.shape), g, g._savedLayout))
+            key = (g.currentLayout, getattr(g, 'notSaved', None), model['saved'], held, g._dataIdx, g._buffIdx, g._saveIdx, model['data'],
                    (man._managers.index(man._current_manager) if hasattr(man, '_current_manager') else 0))
             return key, viol
         return simmpi.World(size).run(fn)
